@@ -65,12 +65,17 @@ def run(ck):
         tables = None
     else:
         tables = G.parse_dump(dl[0])
-        files = {"X86RegTables.v": G.gen_tables_v(tables)}
+        files = {"X86RegTables.v": G.gen_tables_v(tables),
+                 "InstNames.v": G.gen_names_v(G.load_inst_names(vlib.REPO), G.load_a64_inst_names(vlib.REPO))}
         r = ck.coq_regen(files)
         if r is not None:
             gen_dir, failed, log = r
             ck.notes.append("coq/gen regenerated from the working tree (differs from the committed snapshot); failed: %s" % failed)
-            if failed:
+            if "InstNames.v" in failed:
+                ck.violation("C20/inst-names", "the instruction-name lists of the InstId enums no longer satisfy names_check (a mnemonic that is a prefix "
+                             "keyword / not an identifier, or two x86 ids with one name): %s" % log[-500:],
+                             {"broken": "lemma inst_names_ok (coq/gen/InstNames.v)"}, no_input=True)
+            if "X86RegTables.v" in failed:
                 # search: which (type,id) prints a wrong name — independent python reading of the tables vs the manuals' names
                 bad = G.find_bad_table_entries(tables)
                 if bad:
@@ -85,16 +90,15 @@ def run(ck):
         gen_dir = None     # the other theorems are still checked, against the committed snapshot of the tables
     obl = ck.coq_properties(gen_dir=gen_dir) if gen_dir else ck.coq_properties()
     ck.log("theorems: %d, failed: %d" % (len(obl), len([o for o in obl if not o["ok"]])))
-    mfail = ck.coq_make(["theories/Fmt/TextModel.vo", "theories/Fmt/X86FmtModel.vo", "theories/Fmt/X86InstModel.vo", "theories/Fmt/A64FmtModel.vo", "theories/Fmt/LogLine.vo"])
+    mfail = ck.coq_make(["theories/Fmt/TextModel.vo", "theories/Fmt/X86FmtModel.vo", "theories/Fmt/X86InstModel.vo", "theories/Fmt/A64FmtModel.vo", "theories/Fmt/LogLine.vo", "theories/Fmt/LabelVirt.vo", "theories/Fmt/DataNode.vo"])
     if mfail:
         raise RuntimeError("model theories do not compile: %s %s" % (mfail, getattr(ck, "coq_log", "")[-800:]))
     model = ck.ocaml_model("Extract_Fmt.v", ["zconv.ml", "c20_driver.ml"], name="c20")
 
-    # does the tree print an extend operator that has a zero amount (fixes/C20-a64-extend-without-amount.patch)? the model has both
-    # behaviours; the proven round trip holds for the fixed one, the pinned one is a recorded finding (see the oracle below)
-    probe = vlib.sh([impl], inp="O 6 0 A 2 6 1 1 5 2 8 0 0 0\n", timeout=60)[1].strip()
-    margs = ["--a64-fixed"] if probe == "O [x1, w2 uxtw]" else []
-    ck.notes.append("a64 extend-without-amount printing: %s (probe %r)" % ("fixed" if margs else "pinned behaviour", probe))
+    # /repo carries the fix "print the AArch64 memory-operand extend operator when its shift amount is zero" (f9834ed): the model is
+    # the FIXED behaviour (a64_mem_toks true); a tree that drops the operator again disagrees with model, proven parser and python
+    # reader on concrete operands -> VIOLATION key C20/a64-mem-extend-dropped/<op>
+    margs = ["--a64-fixed"]
 
     if ck.replay:
         rp = json.load(open(ck.replay))
@@ -117,7 +121,12 @@ def run(ck):
     except Exception as e:                       # node missing: fall back to the template generator only (recorded)
         forms = None
         ck.notes.append("ISA database not readable (%s): DB-driven emission skipped" % e)
-    cmds = G.gen_stream(rng, ck.tier, isa, forms) + G.gen_stream_a64(rng, ck.tier, isa64, vlib.REPO)
+    try:
+        forms64 = G.load_a64_forms(vlib.REPO, vlib.sh)
+    except Exception as e:
+        forms64 = None
+        ck.notes.append("AArch64 ISA database not readable (%s): DB-driven a64 emission skipped" % e)
+    cmds = G.gen_stream(rng, ck.tier, isa, forms) + G.gen_stream_a64(rng, ck.tier, isa64, vlib.REPO, forms64)
     corpus = os.path.join(vlib.VERIF, "corpus", "C20.txt")
     if os.path.exists(corpus):
         cmds = [l.rstrip("\n") for l in open(corpus) if l.strip() and not l.startswith("#")] + cmds
@@ -162,6 +171,25 @@ def run(ck):
             j = G.judge_number(cmd, x)
             if j:
                 ck.violation(j[0], j[1], {"command": cmd, "impl": x, "model": y})
+        if k in "YZ":
+            nontrivial.add(x)
+            if x != y:
+                ck.violation("C20/%s/%s" % ("data" if k == "Y" else "node", re.sub(r"\s+", "_", cmd)[:120]),
+                             "%s text differs from the model: %r impl %r model %r" % ("format_data" if k == "Y" else "format_node", cmd, x, y),
+                             {"command": cmd, "impl": x, "model": y})
+            elif k == "Y":
+                phase2.append((cmd, x, y, "P D | %s" % x[2:]))
+        if k in "WBU":
+            nontrivial.add(x)
+            if x != y:
+                ck.violation("C20/%s/%s" % ("label" if k == "B" else "virt-reg", re.sub(r"\s+", "_", cmd)[:140]),
+                             "%s text differs from the model: %r impl %r model %r" % ("label" if k == "B" else "virtual register", cmd, x, y),
+                             {"command": cmd, "impl": x, "model": y})
+            elif k == "W" and G.virt_expect(cmd) is not None:
+                e = G.virt_expect(cmd)
+                phase2.append((cmd, x, y, "P W %d %s | %s" % (e[0], e[1], x[2:])))
+            elif k == "B" and cmd.split()[2] == "3":
+                phase2.append((cmd, x, y, "P B %s %s | %s" % (cmd.split()[1], cmd.split()[6], x[2:])))
         if k in "OX":
             f = cmd.split(" ", 3)
             phase2.append((cmd, x, y, "P %s %s %s | %s" % (k, f[1], f[3], x[2:])))
@@ -170,17 +198,33 @@ def run(ck):
     # options: for such operands the line may carry "rex " although the caller did not ask for it (same bytes, modelled as is)
     def mtext(cmd, y):
         return G.subst_named_labels(y[2:]) if G.uses_named_label(cmd) else y[2:]
-    ses_eff = {c: c for c in ses}      # the command whose model text is compared (options / mnemonic as the assembler changed them)
-    alt_idx = [i for i, (cmd, x, y) in enumerate(zip(ses, si, sm)) if cmd.split()[1] == "2" and G.has_gpb_rex(cmd) and x.startswith("E 0 ") and
-               re.split(r" *(;|\$)", x.split(" ", 3)[3], 1)[0] != mtext(cmd, y)]
-    if alt_idx:
-        am = run_exe(model, [G.with_rex(ses[i]) for i in alt_idx], args=margs)
+    ses_eff = list(ses)      # the command whose model text is compared (options / mnemonic as the assembler changed them)
+    # candidates: options the assembler may add by itself (rex for spl..r15b, short for a rel8 jump to a bound label)
+    def itext_of(x):
+        return re.split(r" *(;|\$)", x.split(" ", 3)[3], 1)[0]
+    alt_idx, alt_cmds = [], []
+    for i, (cmd, x, y) in enumerate(zip(ses, si, sm)):
+        if cmd.split()[1] != "2" or not x.startswith("E 0 ") or itext_of(x) == mtext(cmd, y):
+            continue
+        adds = (["rex"] if G.has_gpb_rex(cmd) else []) + (["short"] if G.has_bound_label_operand(cmd) else [])
+        variants = [[a] for a in adds] + ([adds] if len(adds) == 2 else [])
+        for v in variants:
+            c2 = cmd
+            for a in v:
+                c2 = G.with_opt(c2, a)
+            alt_idx.append(i); alt_cmds.append(c2)
+    short_added = 0
+    if alt_cmds:
+        am = run_exe(model, alt_cmds, args=margs)
         if not isinstance(am, tuple):
             sm = list(sm)
-            for i, a in zip(alt_idx, am):
-                sm[i] = a
-                ses_eff[ses[i]] = G.with_rex(ses[i])
-    rex_added = len(alt_idx)
+            for i, c2, a in zip(alt_idx, alt_cmds, am):
+                if itext_of(si[i]) == mtext(ses[i], a):
+                    sm[i] = a
+                    ses_eff[i] = c2
+                    short_added += 1 if int(c2.split()[5]) & G.IO["short"] and not int(ses[i].split()[5]) & G.IO["short"] else 0
+    alt_idx = sorted(set(i for i in alt_idx if ses_eff[i] != ses[i]))
+    rex_added = len([i for i in alt_idx if int(ses_eff[i].split()[5]) & G.IO["rex"] and not int(ses[i].split()[5]) & G.IO["rex"]])
     # likewise the a64 assembler turns ldr/str with an unscaled offset into ldur/stur (same family) and logs the id it emitted
     alt2 = [i for i, (cmd, x, y) in enumerate(zip(ses, si, sm)) if cmd.split()[1] == "6" and cmd.split()[4] in G.A64_UNSCALED and
             x.startswith("E 0 ") and re.split(r" *(;|\$)", x.split(" ", 3)[3], 1)[0] != mtext(cmd, y)]
@@ -190,14 +234,15 @@ def run(ck):
             sm = list(sm)
             for i, a in zip(alt2, am):
                 sm[i] = a
-                ses_eff[ses[i]] = G.with_mnem(ses[i], G.A64_UNSCALED[ses[i].split()[4]])
+                ses_eff[i] = G.with_mnem(ses[i], G.A64_UNSCALED[ses[i].split()[4]])
     unscaled_renamed = len(alt2)
     # E: logger lines
     e_ok = 0
     e_arch = {}
+    mn_seen = {}
     named = 0
     e_err = {}
-    for cmd, x, y in zip(ses, si, sm):
+    for ei, (cmd, x, y) in enumerate(zip(ses, si, sm)):
         kinds["E"] = kinds.get("E", 0) + 1
         m = re.match(r"E (\d+) (\S+) ?(.*)$", x)
         if not m:
@@ -211,6 +256,7 @@ def run(ck):
             continue
         e_ok += 1
         e_arch[cmd.split()[1]] = e_arch.get(cmd.split()[1], 0) + 1
+        mn_seen.setdefault(cmd.split()[1], set()).add(cmd.split()[4])
         nontrivial.add(lg)
         ff = int(cmd.split()[2])
         mc = ff & 1
@@ -232,8 +278,24 @@ def run(ck):
         if G.uses_named_label(cmd):
             named += 1          # named labels are free text: compared with the python model of format_label, not parsed
             continue
-        xcmd = "X %s 0 %s" % (cmd.split()[1], G.e_to_x(ses_eff[cmd]))
-        phase2.append((xcmd, "X " + itext, "X " + y[2:], "P X %s %s | %s" % (cmd.split()[1], G.e_to_x(ses_eff[cmd]), itext)))
+        xcmd = "X %s 0 %s" % (cmd.split()[1], G.e_to_x(ses_eff[ei]))
+        phase2.append((xcmd, "X " + itext, "X " + y[2:], "P X %s %s | %s" % (cmd.split()[1], G.e_to_x(ses_eff[ei]), itext)))
+
+    # ---------------------------------------------------------------- cosmetic flags (compared, not modelled): kShowAliases, kExplainImms
+    cos = G.gen_cosmetic_cmds(rng, isa)
+    aliases = G.load_x86_aliases(vlib.REPO)
+    ca = run_exe(impl, [c[1] for c in cos] + [c[2] for c in cos])
+    cos_stat = {"alias_lines": 0, "alias_formatted": 0, "explain_lines": 0, "explained": 0}
+    if isinstance(ca, tuple):
+        ck.violation("C20/harness-crash", "harness failed on cosmetic commands: %s" % (ca,), {"broken": "harness"}, no_input=True)
+    else:
+        for (kind, pc, fc), pa, fa in zip(cos, ca[:len(cos)], ca[len(cos):]):
+            cos_stat[kind + "_lines"] += 1
+            if fa != pa:
+                cos_stat["alias_formatted" if kind == "alias" else "explained"] += 1
+            j = G.judge_cosmetic(kind, pc, pa, fa, aliases)
+            if j:
+                ck.violation(j[0], j[1], {"command": fc, "impl": fa, "plain": pa})
 
     # ---------------------------------------------------------------- thorough: llvm-mc as a third, independent reading of the lines
     llvm = {}
@@ -285,6 +347,21 @@ def run(ck):
     unsupported = {}
     for (cmd, x, y, pc), a in zip(phase2, p2):
         k = pc[0]
+        if k == "P" and cmd[0] == "Y":
+            if a == G.data_expect(cmd):
+                parsed_ok += 1
+            else:
+                ck.violation("C20/data-parse/%s" % re.sub(r"\s+", "_", cmd)[:120],
+                             "format_data prints %r for %r; the proven parser reads %r, the bytes are %r" % (x[2:], cmd, a, G.data_expect(cmd)),
+                             {"command": cmd, "impl": x})
+            continue
+        if k == "P" and cmd[0] in "WB":
+            if a == "P ok":
+                parsed_ok += 1
+            else:
+                ck.violation("C20/%s-parse/%s" % ("virt-reg" if cmd[0] == "W" else "label", re.sub(r"\s+", "_", cmd)),
+                             "the proven parser reads %r (for %r) as %s" % (x[2:], cmd, a), {"command": cmd, "impl": x})
+            continue
         if k == "P":
             a6 = cmd.split()[1] == "6"
             second = (G.a64_py_judge if a6 else G.py_judge)(cmd, x)          # independent python reader
@@ -332,6 +409,12 @@ def run(ck):
         ck.violation("C20/proof/" + o["name"], "theorem %s no longer checks (%s)" % (o["name"], getattr(ck, "coq_log", "")[-800:]),
                      {"broken": "theorem " + o["name"], "file": "coq/theories/Properties/Properties_C20.v"}, no_input=True)
 
+    # coverage floor (DESIGN 4.1: a check whose supported share falls below the share recorded at claim time is a harness error, not a pass)
+    floor = {"emitted x86-64": (e_arch.get("2", 0), 6000), "emitted aarch64": (e_arch.get("6", 0), 6000), "texts parsed back": (parsed_ok, 25000),
+             "x86-64 mnemonics emitted": (len(mn_seen.get("2", ())), 1500), "aarch64 mnemonics emitted": (len(mn_seen.get("6", ())), 550)}
+    low = {k: v for k, v in floor.items() if v[0] < v[1]}
+    if low and not ck.violations and forms and forms64:
+        raise RuntimeError("coverage fell below the recorded floor: %s" % low)
     samples = [{"cmd": c, "impl": x, "model": y} for c, x, y in (list(zip(par, ri, rm))[2:5] + list(zip(par, ri, rm))[len(par) // 2: len(par) // 2 + 3] + list(zip(ses, si, sm))[:3])]
     return ck.finish(
         "proof",
@@ -340,10 +423,10 @@ def run(ck):
                  "architectural and non-architectural ids, memory operands over size x segment x address type x base kind x index x scale x displacement "
                  "classes x broadcast, immediates, labels; lines: option prefixes, {k}{z}, {er}/{sae}, 0..6 operands; E: random instruction ids x operand "
                  "templates really emitted with a StringLogger); distinct_nontrivial counts distinct texts produced by the implementation",
-         "samples": samples, "commands_by_kind": kinds, "emitted_ok": e_ok, "emitted_ok_by_arch": {"x86-64": e_arch.get("2", 0), "aarch64": e_arch.get("6", 0)}, "emitted_with_named_labels": named, "assembler_added_rex_option": rex_added, "assembler_chose_unscaled_form": unscaled_renamed, "emit_refused_by_error": {str(k): v for k, v in sorted(e_err.items())},
+         "samples": samples, "commands_by_kind": kinds, "emitted_ok": e_ok, "emitted_ok_by_arch": {"x86-64": e_arch.get("2", 0), "aarch64": e_arch.get("6", 0)}, "emitted_with_named_labels": named, "assembler_added_rex_option": rex_added, "assembler_added_short_option": short_added, "assembler_chose_unscaled_form": unscaled_renamed, "emit_refused_by_error": {str(k): v for k, v in sorted(e_err.items())},
          "texts_parsed_back_by_proven_parser": parsed_ok, "unsupported": unsupported,
          "traces_validated_against_impl": len(cmds), "model_vs_impl_disagreements": disagreements,
-         "llvm_mc_third_reading": llvm, "isa_db_forms": len(forms or []), "instruction_names": len(isa), "a64_instruction_names": len(isa64)},
+         "coverage_floor": {k: {"measured": v[0], "floor": v[1]} for k, v in floor.items()}, "cosmetic_flags_compared": cos_stat, "llvm_mc_third_reading": llvm, "isa_db_forms": len(forms or []), "a64_isa_db_forms": len(forms64 or []), "emitted_distinct_mnemonics": {"x86-64": len(mn_seen.get("2", ())), "aarch64": len(mn_seen.get("6", ()))}, "instruction_names": len(isa), "a64_instruction_names": len(isa64)},
         assumptions=["the C++ harness calls the real functions of /repo's working tree (Formatter::format_operand/format_instruction, String::append_uint, "
                      "x86::Assembler::_emit with a StringLogger; reg_format_info via #include of x86formatter.cpp)",
                      "theorems are about the Gallina model; the model is tied to the code by the table translator and the text differential of this check",
